@@ -6,7 +6,10 @@
    "definitions it does not reference" has a meaning in the model.
    Model.RunnerLib mirrors how the name maps are built from the parsed files
    after the repair of defect D22 (file-id order, first definition of a name
-   kept): no known finding and no carve-out is left in this file.
+   kept).  One known finding: when a name is defined in two files that are both
+   named on the command line, naming them in another order keeps another
+   definition (C17_files_in_another_order needs the names distinct, and is
+   refuted otherwise: C17-duplicate-name-file-order).
    Proofs.DesugarOrder covers the HashMap loops of remove_syntactic_sugar over
    Model.Desugar (the mirror of C18).  These theorems cover ALL iteration
    orders of the name maps, all lookup sequences and all orders of the
@@ -16,7 +19,7 @@
 From Coq Require Import ZArith NArith List Bool Arith Permutation String.
 Require Import Model.Base Gen.Category Model.Runner Model.RunnerSrc Model.RunnerLib
                Spec.RunnerSpec Spec.RunnerSrcSpec Proofs.RunnerProofs Proofs.RunnerSrcProofs Proofs.RunnerLibProofs
-               Proofs.RunnerFileIds.
+               Proofs.RunnerFileIds Proofs.RunnerFileOrder.
 Require Model.Ast Model.Desugar Proofs.DesugarOrder.
 Import ListNotations.
 
@@ -213,6 +216,14 @@ Theorem C17_files_sorted_the_same_for_every_map_order : forall es1 es2,
 Proof. exact sort_entries_order_irrelevant. Qed.
 Print Assumptions C17_files_sorted_the_same_for_every_map_order.
 
+(* ... and that sequence IS the files in FileID order: sorted, and nothing lost or
+   invented (without this, "first" in C17_library_keeps_first_definition would hang
+   on an unpinned function) *)
+Theorem C17_files_are_sorted_by_file_id : forall es,
+  sorted_ids (sort_entries es) /\ Permutation es (sort_entries es).
+Proof. intros es. split. apply sort_entries_sorted. apply sort_entries_perm. Qed.
+Print Assumptions C17_files_are_sorted_by_file_id.
+
 (* ... hence the same name maps and the same definitions blamed as duplicates,
    DUPLICATED NAMES INCLUDED (no carve-out any more) *)
 Theorem C17_library_same_for_every_map_order : forall es1 es2,
@@ -231,14 +242,17 @@ Print Assumptions C17_library_keeps_first_definition.
 (* the hypothesis [wf_project] of the runner theorems holds for every project
    the tool can build: it is not an assumption about the input *)
 Theorem C17_library_is_well_formed : forall parse es user,
+  NoDup (map d_name (library_of es)) /\            (* one definition per NAME, function or template *)
   wf_project (mkProject parse (library_of es) user).
-Proof. exact library_wf. Qed.
+Proof. intros. split. apply library_names_distinct. apply library_wf. Qed.
 Print Assumptions C17_library_is_well_formed.
 
-(* whole runs: the order of the map of parsed files, the order of the parser's
-   reports and the order of the name maps are all irrelevant; [NoDup (map fst es1)]
-   says that [es1] lists the entries of a map (FileIDs are its keys) *)
-Theorem C17_file_order_irrelevant : forall parse1 parse2 es1 es2 user o order1 order2,
+(* whole runs, FileIDs FIXED: the order in which the map of parsed files is ITERATED,
+   the order of the parser's reports and the order of the name maps are all
+   irrelevant; [NoDup (map fst es1)] says that [es1] lists the entries of a map
+   (FileIDs are its keys).  This is NOT the clause "input files given in another
+   order" (the files then get other FileIDs): that is C17_files_in_another_order. *)
+Theorem C17_file_map_iteration_order_irrelevant : forall parse1 parse2 es1 es2 user o order1 order2,
   NoDup (map fst es1) -> Permutation es1 es2 -> Permutation parse1 parse2 ->
   let p1 := mkProject parse1 (library_of es1) user in
   let p2 := mkProject parse2 (library_of es2) user in
@@ -247,14 +261,15 @@ Theorem C17_file_order_irrelevant : forall parse1 parse2 es1 es2 user o order1 o
   res_exit (run_keys p1 o order1) = res_exit (run_keys p2 o order2) /\
   duplicates_of es1 = duplicates_of es2.
 Proof. exact file_order_irrelevant_lib. Qed.
-Print Assumptions C17_file_order_irrelevant.
+Print Assumptions C17_file_map_iteration_order_irrelevant.
 
 (* files given in another order are NUMBERED differently (FileLibrary hands out
    consecutive FileIDs as the files are read): every [d_file], every
    primary-label file of every report and the list of user inputs change
    together.  Renumbering by any injective map changes nothing but those
    numbers: the same findings are displayed (with their files renumbered), the
-   same exit status.  (C17_file_order_irrelevant above keeps the FileIDs fixed.) *)
+   same exit status.  (It renumbers an already built project; composed with the construction of the
+   name maps below.) *)
 Theorem C17_file_ids_are_names : forall f,
   (forall x y, f x = f y -> x = y) ->
   forall p o order order',
@@ -267,6 +282,33 @@ Print Assumptions C17_file_ids_are_names.
 
 Example C17_file_ids_swap_is_injective : forall x y, swap01 x = swap01 y -> x = y.
 Proof. exact swap01_injective. Qed.
+
+(* "input files given in another order", end to end over the models: the files get
+   other FileIDs (any injective [f]), the map of parsed files [es'] is any
+   enumeration of the renumbered entries, and the name maps are REBUILT from them.
+   If no name is defined twice: the same findings (renumbered), the same exit. *)
+Theorem C17_files_in_another_order : forall f parse es es' user o order order',
+  (forall x y, f x = f y -> x = y) ->
+  NoDup (map d_name (flat_map snd es)) ->
+  Permutation es' (map (rn_entry f) es) ->
+  let p := mkProject parse (library_of es) user in
+  let p' := mkProject (map (rn_report f) parse) (library_of es') (map f user) in
+  analysis_order p order -> analysis_order p' order' ->
+  Permutation (res_shown (run_keys p' o order')) (map (rn_report f) (res_shown (run_keys p o order))) /\
+  res_exit (run_keys p' o order') = res_exit (run_keys p o order).
+Proof. exact files_in_another_order. Qed.
+Print Assumptions C17_files_in_another_order.
+
+(* the hypothesis is needed: with a name defined in two files the definition with
+   the smaller NEW FileID is kept, so the name maps differ - known finding
+   C17-duplicate-name-file-order (`a.circom b.circom` vs `b.circom a.circom`) *)
+Theorem C17_files_in_another_order_refuted_with_duplicated_name :
+  exists f es,
+    (forall x y, f x = f y -> x = y) /\ NoDup (map fst es) /\
+    ~ NoDup (map d_name (flat_map snd es)) /\
+    ~ Permutation (library_of (map (rn_entry f) es)) (map (rn_def f) (library_of es)).
+Proof. exact files_in_another_order_refuted_with_duplicated_name. Qed.
+Print Assumptions C17_files_in_another_order_refuted_with_duplicated_name.
 
 (* non-vacuity with a duplicated name: both orders of the map keep the
    definitions of file 0 and blame those of file 1 *)
